@@ -56,6 +56,13 @@ type c17GrainSpec struct {
 	Kind      int  `json:"kind"` // 0 / 1: two grain types
 	Reentrant bool `json:"reentrant"`
 	Think     int  `json:"think_us"`
+	// DeactivateAfterMs > 0: the grain is not long-lived, it passivates after that
+	// idle time (WithGrainDeactivateAfter); it gets exactly one message, StaggerMs
+	// after the previous passivating grain got its message, and no sender ever
+	// addresses it, so its idle deadline is that message + DeactivateAfterMs.
+	DeactivateAfterMs int `json:"deactivate_after_ms"`
+	StaggerMs         int `json:"stagger_ms"`
+	DeactWork         int `json:"ondeactivate_us"` // duration of OnDeactivate
 }
 
 type c17Sender struct {
@@ -70,6 +77,9 @@ type c17Case struct {
 	Senders    []c17Sender    `json:"senders"`
 	StopAfter  int            `json:"stop_after_us"` // traffic runs this long before Stop is called
 	PillLead   int            `json:"pill_lead_us"`  // Tell+PoisonPill senders are told about the stop this long before it is called
+	// With a passivating grain in the case Stop is issued StopOffsetMs after the idle
+	// deadline of the FIRST passivating grain (negative: before it); StopAfter is ignored.
+	StopOffsetMs int `json:"stop_offset_ms"`
 	NoiseSeed  uint64         `json:"noise_seed"`
 	NoiseProb  float64        `json:"noise_prob"`
 	NoiseSleep int            `json:"noise_sleep_us"`
@@ -114,21 +124,39 @@ func c17Gen(t *rapid.T) c17Case {
 		c.Nodes = append(c.Nodes, spec)
 	}
 	ng := rapid.SampledFrom([]int{0, 1, 1, 2, 3, 5}).Draw(t, "grains")
+	// a third of the cases with grains let some of them passivate around the stop
+	passivating := ng > 0 && rapid.IntRange(0, 2).Draw(t, "passivating-grains") == 0
+	idle := rapid.SampledFrom([]int{100, 200, 300}).Draw(t, "deactivate-after")
+	var longLived []int
 	for i := 0; i < ng; i++ {
-		c.Grains = append(c.Grains, c17GrainSpec{
+		g := c17GrainSpec{
 			Kind:      rapid.IntRange(0, 1).Draw(t, "grain-kind"),
 			Reentrant: rapid.IntRange(0, 2).Draw(t, "reentrant") == 0,
 			Think:     rapid.SampledFrom([]int{0, 0, 20, 100, 400}).Draw(t, "grain-think"),
-		})
+		}
+		if passivating && (i == 0 || rapid.IntRange(0, 3).Draw(t, "this-one-passivates") > 0) {
+			g.DeactivateAfterMs = idle
+			g.Reentrant = rapid.IntRange(0, 3).Draw(t, "passivating-reentrant") == 0
+			// the idle deadlines of the passivating grains are spread over the window
+			// in which the stop is issued
+			g.StaggerMs = rapid.SampledFrom([]int{0, 4, 8, 12}).Draw(t, "stagger")
+			g.DeactWork = rapid.SampledFrom([]int{2000, 5000, 10000}).Draw(t, "ondeactivate-work")
+		} else {
+			longLived = append(longLived, i)
+		}
+		c.Grains = append(c.Grains, g)
+	}
+	if passivating {
+		c.StopOffsetMs = rapid.OneOf(rapid.IntRange(-30, 30), rapid.IntRange(-10, 25), rapid.SampledFrom([]int{-90, -60, 80, 150})).Draw(t, "stop-offset")
 	}
 	ns := rapid.IntRange(0, 6).Draw(t, "senders")
 	for i := 0; i < ns; i++ {
 		var s c17Sender
-		toGrain := len(c.Grains) > 0 && (len(c.Nodes) == 0 || rapid.IntRange(0, 2).Draw(t, "to-grain") == 0)
+		toGrain := len(longLived) > 0 && (len(c.Nodes) == 0 || rapid.IntRange(0, 2).Draw(t, "to-grain") == 0)
 		switch {
 		case toGrain:
 			s.Mode = rapid.SampledFrom([]int{c17TellGrain, c17AskGrain}).Draw(t, "grain-mode")
-			s.Target = rapid.IntRange(0, len(c.Grains)-1).Draw(t, "grain-target")
+			s.Target = rapid.SampledFrom(longLived).Draw(t, "grain-target") // passivating grains get no traffic
 		case len(c.Nodes) > 0:
 			s.Mode = rapid.SampledFrom([]int{c17Tell, c17Tell, c17Tell, c17Ask, c17Ask, c17Poison}).Draw(t, "mode")
 			s.Target = rapid.IntRange(0, len(c.Nodes)-1).Draw(t, "target")
@@ -182,6 +210,10 @@ type c17Unit struct {
 	lastExit    int64
 	handled     int
 	lateEntries []int64 // handler entries that happened after the stop hook of this unit was entered
+	inStop      int     // stop hooks currently running
+	stopOverlap bool
+	stopEnters  []int64
+	passivates  bool
 }
 
 func (u *c17Unit) handle(e *c17Env, fn func()) {
@@ -210,12 +242,19 @@ func (u *c17Unit) started(e *c17Env) {
 func (u *c17Unit) stopping(e *c17Env) {
 	u.mu.Lock()
 	u.stops++
-	if u.stopEnter == 0 {
-		u.stopEnter = e.tick()
+	u.inStop++
+	if u.inStop > 1 {
+		u.stopOverlap = true // two stop hooks of one actor / grain run at the same time
 	}
+	now := e.tick()
+	if u.stopEnter == 0 {
+		u.stopEnter = now
+	}
+	u.stopEnters = append(u.stopEnters, now)
 	u.mu.Unlock()
 	c17Busy(u.postThink)
 	u.mu.Lock()
+	u.inStop--
 	if u.stopExit == 0 {
 		u.stopExit = e.tick()
 	}
@@ -317,8 +356,12 @@ func c17Exec(x *vfkit.X, c c17Case) {
 	var grains []*c17Unit
 	var idents []*GrainIdentity
 	for i, spec := range c.Grains {
-		u := &c17Unit{name: fmt.Sprintf("g%d", i), think: time.Duration(spec.Think) * time.Microsecond}
+		u := &c17Unit{name: fmt.Sprintf("g%d", i), think: time.Duration(spec.Think) * time.Microsecond,
+			postThink: time.Duration(spec.DeactWork) * time.Microsecond, passivates: spec.DeactivateAfterMs > 0}
 		opts := []GrainOption{WithLongLivedGrain()}
+		if spec.DeactivateAfterMs > 0 {
+			opts = []GrainOption{WithGrainDeactivateAfter(time.Duration(spec.DeactivateAfterMs) * time.Millisecond)}
+		}
 		if spec.Reentrant {
 			opts = append(opts, WithGrainReentrancy(reentrancy.New(reentrancy.WithMode(reentrancy.AllowAll))))
 		}
@@ -391,7 +434,32 @@ func c17Exec(x *vfkit.X, c c17Case) {
 		}()
 	}
 
-	c17Busy(time.Duration(c.StopAfter) * time.Microsecond)
+	// the passivating grains get their one and only message now; the stop is
+	// issued StopOffsetMs after the idle deadline of the first of them
+	var focusDeadline time.Time
+	for i, spec := range c.Grains {
+		if spec.DeactivateAfterMs == 0 {
+			continue
+		}
+		time.Sleep(time.Duration(spec.StaggerMs) * time.Millisecond)
+		if _, err := sys.AskGrain(ctx, idents[i], &c17Msg{Seq: -1}, 5*time.Second); err != nil {
+			x.Class("inconclusive_passivating_grain_not_reachable")
+			vfsched.SetNoise(0, 0, 0)
+			cancelSends()
+			stopCalled = true
+			_ = sys.Stop(ctx)
+			wg.Wait()
+			return
+		}
+		if focusDeadline.IsZero() {
+			focusDeadline = time.Now().Add(time.Duration(spec.DeactivateAfterMs) * time.Millisecond)
+		}
+	}
+	if focusDeadline.IsZero() {
+		c17Busy(time.Duration(c.StopAfter) * time.Microsecond)
+	} else if d := time.Until(focusDeadline.Add(time.Duration(c.StopOffsetMs) * time.Millisecond)); d > 0 {
+		time.Sleep(d)
+	}
 	aboutToStop.Store(true)
 	if c.PillLead > 0 {
 		c17Busy(time.Duration(c.PillLead) * time.Microsecond)
